@@ -116,6 +116,31 @@ func (f *fx) lookupLocal(name string) (TV, bool) {
 		}
 	}
 	if !found {
+		// a variable assigned exactly once whose uses do not dominate this point: its single value still does
+		var only ssa.Value
+		single := true
+		for _, b := range f.fn.Blocks {
+			for _, in := range b.Instrs {
+				if x, ok := in.(*ssa.DebugRef); ok && !x.IsAddr {
+					if id, ok := x.Expr.(*ast.Ident); ok && id.Name == name {
+						if only == nil {
+							only = x.X
+						} else if only != x.X {
+							single = false
+						}
+					}
+				}
+			}
+		}
+		if only != nil && single {
+			if in, ok := only.(ssa.Instruction); ok && (in.Block() == cur || in.Block().Dominates(cur)) {
+				if v, ok := f.vals[only]; ok {
+					return TV{V: v, GoT: only.Type()}, true
+				}
+			}
+		}
+	}
+	if !found {
 		// captured variables of a closure
 		for i, fv := range f.fn.FreeVars {
 			if fv.Name() == name && i < len(f.freeVars) {
